@@ -527,3 +527,36 @@ def rule_S8(ctx: Ctx) -> None:
     mc = S.may_coll[f.qualname]
     ctx.check(not mc, 'S8', f, 'MayCollective(state_dict) = {}', 'state_dict',
               f'BaseKFACPreconditioner.state_dict may issue collectives {sorted(mc)}; calling it on a subset of ranks would stall', f.node)
+
+
+def enumerate_chains(ctx: Ctx, limit: int = 20000) -> dict:
+    """Exhaustive enumeration (thorough tier) of acyclic call chains entry point -> ... -> torch.distributed primitive, per family."""
+    out = {}
+    for fam, _root in FAMILIES:
+        S = get_spmd(ctx, fam)
+        p = ctx.prog
+        chains = 0
+        samples = []
+        longest = 0
+        entry_count: dict[str, int] = {}
+
+        def dfs(f: Func, path: list[str]) -> None:
+            nonlocal chains, longest
+            if chains >= limit:
+                return
+            sites = S.prim_sites.get(f.qualname, [])
+            for c, prim in sites:
+                chains += 1
+                longest = max(longest, len(path))
+                entry_count[path[0]] = entry_count.get(path[0], 0) + 1
+                if len(samples) < 12:
+                    samples.append(' -> '.join(path + [f'dist.{prim}@{p.loc(f, c)}']))
+            for _site, g in S.callees(f):
+                if g.short in path or not S.may_coll.get(g.qualname):
+                    continue
+                dfs(g, path + [g.short])
+        for r in S.roots:
+            if S.may_coll.get(r.qualname):
+                dfs(r, [r.short])
+        out[fam] = {'chains': chains, 'longest': longest, 'per_entry_point': entry_count, 'samples': samples, 'truncated': chains >= limit}
+    return out
